@@ -634,6 +634,8 @@ def main():
     gen_utils_code.gen(sys.modules[__name__], lost)
     import gen_cli_code
     gen_cli_code.gen(sys.modules[__name__], lost)
+    import gen_writer_code
+    gen_writer_code.gen(sys.modules[__name__], lost)
     for name, why in lost:
         print(f"LOST-ANCHOR {name}: {why}")
     sys.exit(3 if lost else 0)
